@@ -58,7 +58,7 @@ fi
 { read suite; read with; read without; read demo_cmd; } < $res
 # the check
 cd /verif
-out=$(tools/trymut.sh "$dst/patch.diff" "$prop" quick 2>&1)
+out=$(VERIF_EVIDENCE_DIR=/verif/work/evidence-trymut tools/trymut.sh "$dst/patch.diff" "$prop" quick 2>&1)
 rc=$(echo "$out" | grep -o "exit=[0-9]*" | tail -1)
 classes=$(echo "$out" | grep -o "class=[^ ]*" | sort -u | head -6 | tr '\n' ' ')
 python3 - "$dst" "$prop" "$n" "$suite" "$with" "$without" "$rc" "$classes" "$demo_cmd" <<'EOF'
